@@ -297,7 +297,8 @@ func (s *server) processChunkSequential(stream clusterv1.ChunkedSyncService_Sync
 		return s.sendResponse(stream, req, clusterv1.SyncStatus_SYNC_STATUS_CHUNK_OUT_OF_ORDER, errMsg, nil)
 	}
 
-	return s.processExpectedChunk(stream, session, req)
+	_, processErr := s.processExpectedChunk(stream, session, req)
+	return processErr
 }
 
 func (s *server) processChunkWithReordering(stream clusterv1.ChunkedSyncService_SyncPartServer, session *syncSession, req *clusterv1.SyncPartRequest) error {
@@ -309,7 +310,8 @@ func (s *server) processChunkWithReordering(stream clusterv1.ChunkedSyncService_
 	buffer.lastActivity = time.Now()
 
 	if req.ChunkIndex == buffer.expectedIndex {
-		if processErr := s.processExpectedChunk(stream, session, req); processErr != nil {
+		accepted, processErr := s.processExpectedChunk(stream, session, req)
+		if processErr != nil || !accepted {
 			return processErr
 		}
 		buffer.expectedIndex++
@@ -378,7 +380,11 @@ func (s *server) processChunkWithReordering(stream clusterv1.ChunkedSyncService_
 	return nil
 }
 
-func (s *server) processExpectedChunk(stream clusterv1.ChunkedSyncService_SyncPartServer, session *syncSession, req *clusterv1.SyncPartRequest) error {
+// processExpectedChunk consumes the chunk the session is waiting for. accepted is false when the chunk
+// was rejected (and the sender told so) without being consumed, so that the caller keeps waiting for it.
+func (s *server) processExpectedChunk(stream clusterv1.ChunkedSyncService_SyncPartServer, session *syncSession,
+	req *clusterv1.SyncPartRequest,
+) (accepted bool, err error) {
 	calculatedChecksum := fmt.Sprintf("%x", crc32.ChecksumIEEE(req.ChunkData))
 	if calculatedChecksum != req.ChunkChecksum {
 		errMsg := fmt.Sprintf("chunk %d checksum mismatch: expected %s, got %s",
@@ -388,7 +394,7 @@ func (s *server) processExpectedChunk(stream clusterv1.ChunkedSyncService_SyncPa
 			op, grp, sn, sr, st := s.resolveSessionLabels(session)
 			s.metrics.totalErr.Inc(1, op, grp, sn, sr, st, "checksum_mismatch")
 		}
-		return s.sendResponse(stream, req, clusterv1.SyncStatus_SYNC_STATUS_CHUNK_CHECKSUM_MISMATCH, errMsg, nil)
+		return false, s.sendResponse(stream, req, clusterv1.SyncStatus_SYNC_STATUS_CHUNK_CHECKSUM_MISMATCH, errMsg, nil)
 	}
 
 	session.totalReceived += uint64(len(req.ChunkData))
@@ -397,13 +403,13 @@ func (s *server) processExpectedChunk(stream clusterv1.ChunkedSyncService_SyncPa
 	var topic bus.Topic
 	t, ok := data.TopicMap[session.metadata.Topic]
 	if !ok {
-		return fmt.Errorf("unknown sync topic: %s", session.metadata.Topic)
+		return false, fmt.Errorf("unknown sync topic: %s", session.metadata.Topic)
 	}
 	topic = t
 
 	handler, exists := s.chunkedSyncHandlers[topic]
 	if !exists {
-		return fmt.Errorf("no handler registered for topic %s", topic)
+		return false, fmt.Errorf("no handler registered for topic %s", topic)
 	}
 
 	for partIndex, partInfo := range req.PartsInfo {
@@ -412,7 +418,7 @@ func (s *server) processExpectedChunk(stream clusterv1.ChunkedSyncService_SyncPa
 
 		if createNewContext && session.partCtx != nil && session.partCtx.Handler != nil {
 			if finishErr := session.partCtx.Handler.FinishSync(); finishErr != nil {
-				return fmt.Errorf("failed to complete part %d: %w", session.partCtx.ID, finishErr)
+				return false, fmt.Errorf("failed to complete part %d: %w", session.partCtx.ID, finishErr)
 			}
 		}
 
@@ -434,7 +440,7 @@ func (s *server) processExpectedChunk(stream clusterv1.ChunkedSyncService_SyncPa
 			}
 			partHandler, createErr := handler.CreatePartHandler(session.partCtx)
 			if createErr != nil {
-				return fmt.Errorf("failed to create part handler: %w", createErr)
+				return false, fmt.Errorf("failed to create part handler: %w", createErr)
 			}
 			session.partCtx.Handler = partHandler
 		} else if session.partCtx.PartType != partInfo.PartType {
@@ -448,13 +454,13 @@ func (s *server) processExpectedChunk(stream clusterv1.ChunkedSyncService_SyncPa
 			session.partCtx.MaxKey = partInfo.MaxKey
 			session.partCtx.PartType = partInfo.PartType
 			if newPartErr := session.partCtx.Handler.NewPartType(session.partCtx); newPartErr != nil {
-				return fmt.Errorf("failed to new part type: %w", newPartErr)
+				return false, fmt.Errorf("failed to new part type: %w", newPartErr)
 			}
 		}
 
 		if processErr := s.processPart(session, req, partInfo, partIndex, handler); processErr != nil {
 			if errors.Is(processErr, queue.ErrServerBusy) {
-				return s.sendResponse(stream, req, clusterv1.SyncStatus_SYNC_STATUS_SERVER_BUSY,
+				return false, s.sendResponse(stream, req, clusterv1.SyncStatus_SYNC_STATUS_SERVER_BUSY,
 					"receiver under memory pressure, retry later", nil)
 			}
 			s.log.Error().Err(processErr).
@@ -466,11 +472,11 @@ func (s *server) processExpectedChunk(stream clusterv1.ChunkedSyncService_SyncPa
 				op, grp, sn, sr, st := s.resolveSessionLabels(session)
 				s.metrics.totalErr.Inc(1, op, grp, sn, sr, st, "part_failed")
 			}
-			return processErr
+			return false, processErr
 		}
 	}
 
-	return s.sendResponse(stream, req, clusterv1.SyncStatus_SYNC_STATUS_CHUNK_RECEIVED, "", nil)
+	return true, s.sendResponse(stream, req, clusterv1.SyncStatus_SYNC_STATUS_CHUNK_RECEIVED, "", nil)
 }
 
 func (s *server) processBufferedChunks(stream clusterv1.ChunkedSyncService_SyncPartServer, session *syncSession) error {
@@ -488,7 +494,8 @@ func (s *server) processBufferedChunks(stream clusterv1.ChunkedSyncService_SyncP
 					Msg("processing buffered chunk")
 			}
 
-			if processErr := s.processExpectedChunk(stream, session, chunk); processErr != nil {
+			accepted, processErr := s.processExpectedChunk(stream, session, chunk)
+			if processErr != nil || !accepted {
 				return processErr
 			}
 			buffer.expectedIndex++
